@@ -162,6 +162,11 @@ def cases(tier, seed):
                 k += 1
     for i in range(n // 3):
         out.append({"id": "rt-%d" % i, "kind": "roundtrip", "shape": SHAPES[i % len(SHAPES)], "seed": [seed, "rt", i]})
+    # a rigid cluster as ONE MEMBER of a collection (next to a free sphere; either place in the list; nested one level deeper), and a
+    # sphere whose per-channel index is a labelled array
+    for i in range(8 if tier == "quick" else 200):
+        out.append({"id": "nested-%d" % i, "kind": "nested", "shape": "nested_rigid", "rigid_place": i % 2, "deeper": bool((i // 2) % 2), "model": ["alpha", "exact"][(i // 4) % 2],
+                    "seed": [seed, "nested", i]})
     return out
 
 
@@ -681,6 +686,72 @@ def _run_tie(case):
             flags["unequal_rejected"] = True
     flags["failed_ties_changed_nothing"] = bool(list(model._parameter_names) == names2)
     return {"resid": {}, "flags": {k: bool(v) for k, v in flags.items()}, "witness": witness[:6], "nparams": len(names2)}
+
+
+def _run_nested(case):
+    from holopy.core.prior import Uniform
+    from holopy.inference import AlphaModel, ExactModel
+    from holopy.scattering import Sphere, Spheres, Scatterers
+    from holopy.scattering.scatterer import RigidCluster
+    from holopy.scattering.theory import Multisphere
+    import xarray as xr
+    rng = rng_for(*case["seed"])
+    flags, witness = {}, []
+    U = lambda lo, hi: Uniform(lo + float(rng.uniform(0, 0.01)), hi + float(rng.uniform(0, 0.01)))
+    body = np.array([[0.0, 0.0, 0.0], [0.7, 0.1, 0.0], [0.0, 0.8, 0.3]])[: 2 + int(rng.integers(0, 2))]
+    pri = {"tx": U(0.0, 1.0), "tz": U(3.0, 4.0), "alpha_rot": U(0.0, 1.0), "beta_rot": U(0.0, 1.0), "r": U(0.4, 0.6), "rs": U(0.2, 0.3)}
+    ty = float(rng.uniform(1.0, 3.0))
+    gamma = float(rng.uniform(0.0, 1.0))
+    rc = RigidCluster(Spheres([Sphere(n=1.5, r=(pri["rs"] if j == 0 else 0.25), center=[float(v) for v in body[j]]) for j in range(len(body))], warn=False),
+                      translation=[pri["tx"], ty, pri["tz"]], rotation=(pri["alpha_rot"], pri["beta_rot"], gamma))
+    free = Sphere(n=1.6, r=pri["r"], center=[5.0, 5.0, 5.0])
+    holder = Scatterers([rc]) if case["deeper"] else rc
+    members = [holder, free] if case["rigid_place"] == 0 else [free, holder]
+    comp = Scatterers(members)
+    kw = dict(theory=Multisphere(), noise_sd=0.1, medium_index=1.33, illum_wavelen=0.66, illum_polarization=(1, 0))
+    model = AlphaModel(comp, alpha=0.9, **kw) if case["model"] == "alpha" else ExactModel(comp, **kw)
+    names = list(model.parameters.keys())
+    plist = list(model._parameters)
+    flags["one_parameter_per_distinct_prior"] = bool(len(plist) == len(pri) and all(any(q is p or q == p for q in plist) for p in pri.values()))
+    vals = {k: float(rng.uniform(p.lower_bound, p.upper_bound)) for k, p in pri.items()}
+    vec = [next(vals[k] for k, p in pri.items() if p == q) for q in plist]
+
+    def check(built, v, label):
+        idx = case["rigid_place"]
+        got_rc = built.scatterers[idx]
+        if case["deeper"]:
+            got_rc = got_rc.scatterers[0]
+        got_free = built.scatterers[1 - idx]
+        R = _Rz(gamma) @ _Ry(v["beta_rot"]) @ _Rz(v["alpha_rot"])
+        com = body.mean(0)
+        want = com + (R @ (body - com).T).T + np.array([v["tx"], ty, v["tz"]])
+        try:
+            got = np.array([np.asarray(m_.center, dtype=float) for m_ in got_rc.scatterers])
+            err = float(np.abs(got - want).max())
+        except Exception as e:
+            got, err = None, float("inf")
+        if not err <= 1e-12:
+            flags["place.nested_rigid_cluster" + label] = False
+            witness.append("%s: cluster member centres %s expected %s" % (label, None if got is None else got.tolist(), want.tolist()))
+        flags["place.free_sphere" + label] = bool(got_free.r == v["r"] and list(got_free.center) == [5.0, 5.0, 5.0])
+        try:
+            flags["place.cluster_member_radius" + label] = bool(got_rc.scatterers[0].r == v["rs"] and got_rc.scatterers[1].r == 0.25)
+        except Exception:
+            flags["place.cluster_member_radius" + label] = False
+    check(model.scatterer_from_parameters(list(vec)), vals, "@list")
+    check(model.scatterer_from_parameters({nm: x for nm, x in zip(names, vec)}), vals, "@dict")
+    check(model.initial_guess_scatterer, {k: p.guess for k, p in pri.items()}, "@guess")
+    # a sphere whose per-channel index is a labelled array: rebuilt from its own parameters it equals the original (== gives a truth value)
+    nval = xr.DataArray([1.5, 1.6], dims=["illumination"], coords={"illumination": ["red", "green"]})
+    sx = Sphere(n=nval, r=0.5, center=[1.0, 2.0, 3.0])
+    try:
+        flags["labelled_array_value_rebuilt_equals_original"] = bool((sx.from_parameters(sx.parameters) == sx) is True)
+        other = Sphere(n=xr.DataArray([1.5, 1.6], dims=["illumination"], coords={"illumination": ["red", "blue"]}), r=0.5, center=[1.0, 2.0, 3.0])
+        flags["labelled_array_other_labels_unequal"] = bool((other == sx) is False)
+    except Exception as e:
+        flags["labelled_array_value_rebuilt_equals_original"] = False
+        witness.append("== raised %r" % (e,))
+    return {"resid": {}, "flags": flags, "witness": witness[:4], "names": names, "nparams": len(names)}
 
 
 def _run_roundtrip(case):
